@@ -23,6 +23,8 @@ func main() {
 		os.Exit(workerMain(os.Args[2:]))
 	case "replay":
 		os.Exit(replayMain(os.Args[2:]))
+	case "dump":
+		os.Exit(dumpMain(os.Args[2:]))
 	case "runone":
 		os.Exit(runOneMain(os.Args[2:]))
 	case "one":
